@@ -337,6 +337,12 @@ func finish(res *runResult, verifDir, tier string, seed int) int {
 			samples = append(samples, o)
 		}
 	}
+	if res.Assume == nil {
+		res.Assume = []string{}
+	}
+	if res.Notes == nil {
+		res.Notes = []string{}
+	}
 	rules := map[string]int{}
 	for _, o := range res.Obs {
 		rules[o.Rule]++
